@@ -268,6 +268,17 @@ func closureDef(v ssa.Value) *ssa.MakeClosure {
 }
 
 func (u *Unit) specEffect(e *Effects, fs *FuncSpec, name string) {
+	// ghost heap entries the contract says the callee modifies
+	for _, m := range fs.Modifies {
+		gn := m
+		if i := strings.Index(gn, "("); i >= 0 {
+			gn = gn[:i]
+		}
+		gn = strings.TrimSpace(gn)
+		if gh, ok := u.eng.spec.GhostHeaps[gn]; ok {
+			e.heaps["G!"+gh.Name] = ArrSort(gh.Key, gh.Val)
+		}
+	}
 	switch fs.Effect {
 	case "pure", "opaque":
 	default:
